@@ -86,7 +86,12 @@ pub fn generate(em: &mut Emitter, seed: u64, thorough: bool) {
             out.join(" ")
         };
         for (variant, debug) in [(src.clone(), true), (deco_src.clone(), false), (deco_src.clone(), true)] {
-            if let Ok(pd) = assemble(k.as_deref(), &variant, debug) {
+            let asm = assemble(k.as_deref(), &variant, debug);
+            if let Err(e) = &asm {
+                em.oracle_failures.push(format!(
+                    "C14 a source that assembles stops assembling in debug mode / with decorators inserted (debug={}): {} :: `{}`", debug, e, variant));
+            }
+            if let Ok(pd) = asm {
                 dbg += 1;
                 let f = trace_fingerprint(&pd, &st, &adv, 64, debug);
                 if f != base {
@@ -323,6 +328,46 @@ pub fn generate(em: &mut Emitter, seed: u64, thorough: bool) {
                 }
             }
         }
+    }
+    // (d) debug-only decorators at every position of a body, including right after a control block
+    //     (where no operation of the same span precedes them): assembling in debug mode must give
+    //     the same execution as assembling without it
+    {
+        let shapes: [(&str, &str); 7] = [
+            ("after an operation", "begin push.1 push.2 add {D} drop end"),
+            ("first in the body", "begin {D} push.1 drop end"),
+            ("last in the body", "begin push.1 drop {D} end"),
+            ("after the last control block", "begin push.1 if.true push.2 drop end {D} end"),
+            ("between control blocks", "begin push.1 if.true push.2 drop end {D} push.0 while.true push.0 end end"),
+            ("last in a branch after a loop", "begin push.1 if.true push.0 while.true push.0 end {D} else push.3 drop end end"),
+            ("last in a procedure after a control block", "proc.f push.1 if.true push.2 drop end {D} end begin exec.f end"),
+        ];
+        let mut n_dbg = 0u64;
+        for (what, shape) in shapes.iter() {
+            for d in ["debug.stack", "debug.stack.4", "debug.mem", "debug.mem.1.2"] {
+                let src = shape.replace("{D}", d);
+                let plain = match assemble(None, &src, false) {
+                    Ok(p) => p,
+                    Err(e) => {
+                        em.oracle_failures.push(format!("C14 source with a debug decorator {} does not assemble without debug mode: {} :: `{}`", what, e, src));
+                        continue;
+                    }
+                };
+                n_dbg += 1;
+                let base = trace_fingerprint(&plain, &[], &[], 64, false);
+                match assemble(None, &src, true) {
+                    Ok(pd) => {
+                        let f = trace_fingerprint(&pd, &[], &[], 64, true);
+                        if f != base {
+                            em.oracle_failures.push(format!("C14 debug-mode assembly changes the execution (decorator {}): `{}` :: {:?} vs {:?}", what, src, base, f));
+                        }
+                    }
+                    Err(e) => em.oracle_failures.push(format!(
+                        "C14 assembling in debug mode fails ({}) where the same source assembles without it (debug decorator {}): `{}`", e, what, src)),
+                }
+            }
+        }
+        em.stat("debug_decorator_position_programs", n_dbg);
     }
     em.stat("iterator_states_compared_with_trace_rows", trace_rows_checked);
     em.stat("iterator_states_with_overflow_part_one_step_early", early_overflow);
